@@ -1589,11 +1589,39 @@ Definition query_set_table (qi : nat) (pos : nat) (tid : nat) : MW unit :=
   modQ qi (fun q => q <| q_tab := pos + 2 |> <| q_table := Some tid |> <| q_index := 0 |>
                       <| q_max := if Nat.eqb (t_len t) 0 then None else Some (t_len t - 1) |>).
 
+(** Position at which the scan of [query_next_table] panics (a table index out of range, or
+    table.Matches dereferencing the nil column of a relation component the table lacks): in Go
+    [cursor.table++] precedes both, so the cursor is left at that position. *)
+Fixpoint nt_fail_pos (s : W) (rels : list rel) (tables : list nat) (fuel pos : nat) : nat :=
+  match fuel with
+  | O => pos
+  | S f =>
+      match nth_error tables pos with
+      | None => pos
+      | Some tid =>
+          match nth_error (w_tables s) tid with
+          | None => pos
+          | Some t =>
+              if Nat.eqb (t_len t) 0 then nt_fail_pos s rels tables f (S pos)
+              else match tbl_matches t rels with
+                   | None => pos
+                   | Some true => pos
+                   | Some false => nt_fail_pos s rels tables f (S pos)
+                   end
+          end
+      end
+  end.
+
+(** Run [m]; if it fails, apply [h] to the state at the failure. *)
+Definition on_err {A} (m : MW A) (h : W -> W) : MW A :=
+  fun s => match m s with Ok a s' => Ok a s' | Err e s' => Err e (h s') end.
+
 (** nextTable: advance over [tables] from the cursor; [cached] closes the query when exhausted. *)
 Definition query_next_table (qi : nat) (tables : list nat) (cached : bool) : MW bool :=
   q <- getQ qi ;;
   (* cursor.table = q_tab - 2; the next candidate position is q_tab - 1 *)
-  r <- (fix go (fuel : nat) (pos : nat) : MW (option (nat * nat)) :=
+  r <- on_err
+       ((fix go (fuel : nat) (pos : nat) : MW (option (nat * nat)) :=
           match fuel with
           | O => ret None
           | S f =>
@@ -1606,7 +1634,8 @@ Definition query_next_table (qi : nat) (tables : list nat) (cached : bool) : MW 
                     mt <- of_opt (tbl_matches t (q_rels q)) ENil ;;
                     if mt then ret (Some (pos, tid)) else go f (S pos)
               end
-          end) (S (length tables)) (q_tab q - 1) ;;
+          end) (S (length tables)) (q_tab q - 1))
+       (fun s => s <| w_queries ::= updf qi (fun q0 => q0 <| q_tab := nt_fail_pos s (q_rels q) tables (S (length tables)) (q_tab q - 1) + 2 |>) |>) ;;
   match r with
   | Some (pos, tid) => query_set_table qi pos tid ;;; ret true
   | None =>
@@ -1649,7 +1678,7 @@ Definition query_next_archetype (qi : nat) : MW bool :=
                   else
                     q <- getQ qi ;;
                     tabs <- of_opt (arch_get_tables a (q_rels q)) EIndex ;;
-                    modQ qi (fun q => q <| q_tables := tabs |> <| q_tab := 1 |>) ;;;
+                    modQ qi (fun q => q <| q_tables := tabs |> <| q_tab := 1 |> <| q_table := None |>) ;;;
                     found <- query_next_table qi tabs false ;;
                     if found then ret true else go fu (S pos)
               end
